@@ -2,6 +2,8 @@ package interp
 
 import (
 	"bytes"
+
+	"github.com/benhoyt/goawk/parser"
 )
 
 // C19 (second half) — executing a parsed Program never modifies it.  The Program returned by
@@ -18,22 +20,40 @@ func verifProgramImage(src string) string {
 
 func VerifC19Immutable() {
 	progs := []string{
-		`function f(a, n) { a[n] = n; return n > 0 ? f(a, n - 1) : 0 } BEGIN { f(arr, 2); for (k in arr) s = s k; printf "%s %d\n", s, length(arr) }`,
+		`function f(a, n) { a[n] = n; return n > 0 ? f(a, n - 1) : 0 } BEGIN { f(arr, 2); for (k in arr) s += k; printf "%s %d\n", s, length(arr) }`,
 		`BEGIN { FS = ","; OFS = "-" } { $2 = toupper($2); n += NF; if ($1 ~ /^a/) c++; print } END { print n, c; x = sprintf("%5.2f", n / 3); print x }`,
 		`{ sub(/b/, "X"); gsub(/c+/, "&&", $1); split($0, parts, " "); print parts[1], substr($0, 2, 3), index($0, "a"), match($0, /a+/), RSTART, RLENGTH }`,
 		`BEGIN { while ((getline line) > 0) n++; print n; x["a"] = 1; delete x["a"]; print length(x); exit 2 }`,
+		`$0 == "a", $0 == "b" { n++ } $0 ~ /c/, 0 { m++ } END { print n, m }`, // range patterns: one may stay open at the end of a run
 	}
 	src := progs[verifIntRange(0, len(progs)-1)]
 	before := verifProgramImage(src)
+	snap := verifSnapshot(verifParse(src).Compiled)
+	var lastInput []byte
+	lastOut := ""
 	for run := 0; run < 2; run++ {
-		input := verifBytes(verifIntRange(0, 2))
+		input := verifBytes(verifIntRange(0, verifBound(2, 3)))
 		for _, b := range input {
 			verifAssume(b == 'a' || b == 'b' || b == 'c' || b == ',' || b == '\n' || b == ' ')
+			if src == progs[4] {
+				verifAssume(b != ',' && b != ' ')
+			}
 		}
-		cfg := &Config{Stdin: bytes.NewReader(input), Output: &bytes.Buffer{}, Error: &bytes.Buffer{}, Environ: []string{}}
+		var out bytes.Buffer
+		cfg := &Config{Stdin: bytes.NewReader(input), Output: &out, Error: &bytes.Buffer{}, Environ: []string{}}
 		_, err, _ := verifRunProgram(src, cfg, nil)
 		verifAssert(err == nil, "template program failed")
+		lastInput, lastOut = input, out.String()
 	}
 	verifReach("ran-twice")
+	verifAssert(verifSnapshot(verifParse(src).Compiled) == snap, "executing a Program modified its compiled form")
+	// the second execution of the shared Program behaves like the first execution of a freshly parsed one
+	fresh, perr := parser.ParseProgram([]byte(src), nil)
+	verifAssert(perr == nil, "template does not parse")
+	var fout bytes.Buffer
+	q := newInterp(fresh)
+	verifAssert(q.setExecuteConfig(&Config{Stdin: bytes.NewReader(lastInput), Output: &fout, Error: &bytes.Buffer{}, Environ: []string{}}) == nil, "config")
+	_, ferr := q.executeAll()
+	verifAssert(ferr == nil && fout.String() == lastOut, "a Program that was executed before behaves differently from a freshly parsed one (state leaked into the shared Program)")
 	verifAssert(verifProgramImage(src) == before, "executing a Program changed it (printed form or compiled code differs after two runs)")
 }
